@@ -57,7 +57,9 @@ UNF = ("cbv [project_point_to_line project_points_to_line project_points_to_line
        # a power-of-two rescaling of the direction (literal constant c) cancels in the unit vector
        "rewrite ?sqrt_scale3 by (unfold nfrac; rops; lra). try (unfold nfrac in *; rops).")
 HEAD = "Proof. intros {vars} Hpath. unfold {T}_path in Hpath; rops. path_facts Hpath. unfold {T}. " + UNF + "\n"
-VALS = "first [ reflexivity | f_equal; list_eq ltac:(first [ reflexivity | ring | field; nonzero_from_path ]) ]"
+# value lists: syntactically equal, ring / field equal, or equal modulo sqrt facts (a rewrite may trade two divisions by a
+# norm for one division by the squared length)
+VALS = "first [ reflexivity | f_equal; list_eq ltac:(first [ reflexivity | ring | field; nonzero_from_path | sqrt_field ]) ]"
 
 
 def kernels():
